@@ -289,6 +289,55 @@ Theorem C18_w_nonseekable_untouched : forall t m cf re f o, st_h t = None ->
 Proof. exact precondition_untouched. Qed.
 Print Assumptions C18_w_nonseekable_untouched.
 
+(* A handle that is only DROPPED - no close(), no with statement: the reader / writer / appender becomes unreachable and is
+   collected (a caller that keeps its stream, closefd=False, has no reason to do more; laspy's own command line tool does this with
+   sys.stdin.buffer) - after ANY history: the stream is exactly as it was (open or closed, where it stood), whatever closefd is and
+   whether a point source had been created (points read, a seek) or not; no handle is left; the log gets no entry (it is not a moment
+   at which laspy lets go). No class has a finalizer, and no function other than the close methods lets go of a stream
+   (gen_only_close_closes in C18_skeleton_shapes: a `__del__` that closes is a translation failure). *)
+Theorem C18_dropped_handle_leaves_stream : forall cap p evs,
+  st_s (run (init_at cap p) (evs ++ [EDrop])) = st_s (run (init_at cap p) evs)
+  /\ st_h (run (init_at cap p) (evs ++ [EDrop])) = None
+  /\ st_log (run (init_at cap p) (evs ++ [EDrop])) = st_log (run (init_at cap p) evs).
+Proof. exact drop_after_any_history. Qed.
+Print Assumptions C18_dropped_handle_leaves_stream.
+
+(* A SECOND close: close() - or the exit of a with statement - once more on a reader / writer / appender that was closed before and that
+   the caller still holds (EReclose, interpreting the close methods as generated for an object whose own closed flag, if the class
+   keeps one, is set). After ANY history and any end of the session (with-exit, close(), the with-body raising), closing the same
+   object again leaves the stream closed iff the caller said closefd. *)
+Theorem C18_close_twice : forall cap p evs e h, is_end e = true -> st_h (run (init_at cap p) evs) = Some h ->
+  let t1 := fst (step (run (init_at cap p) evs) e) in
+  s_closed (st_s (fst (step t1 (EReclose (h_mode h) (h_declared h) (h_ps h))))) = h_declared h.
+Proof. exact close_twice. Qed.
+Print Assumptions C18_close_twice.
+
+(* ... in particular the second close of an object that was given closefd=False never closes, whatever its class, its point source
+   and the state of the stream *)
+Theorem C18_second_close_unasked : forall t m p, st_h t = None ->
+  s_closed (st_s (fst (step t (EReclose m false p)))) = s_closed (st_s t).
+Proof. exact reclose_keeps_unasked. Qed.
+Print Assumptions C18_second_close_unasked.
+
+(* the appender keeps a flag (LasAppender.closed: False since __init__, set by close() on every path before the stream is released):
+   its second close does nothing at all - nothing is written back again, nothing is closed again, no statement of it can fail - and
+   points given to a closed appender are refused with a LaspyException before anything is touched *)
+Theorem C18_closed_appender : forall t, st_h t = None ->
+  (forall cf p, step t (EReclose MA cf p) = (t, RDone) /\ forall hp ss, gen_close_appender_again_faults cf hp ss = [])
+  /\ step t (EUseClosed MA) = (t, RRaised XLaspy).
+Proof. intros t Eh. split; [intros cf p; exact (appender_reclose_noop t cf p Eh) | exact (closed_appender_refuses t Eh)]. Qed.
+Print Assumptions C18_closed_appender.
+
+(* The "only if" half at EVERY moment of a history, not only at the moments laspy lets go of the stream: when laspy is never told to
+   close (closefd=False at every open, in every mode, and at every laspy.read; LasData.write), then whatever happens - reads, seeks,
+   writes, the point source created or not, failing opens, failures of the stream under any operation, close methods that fail
+   half-way, handles that are closed, closed twice, left by an exception, or only dropped, any number of sessions - the caller's
+   stream is open. *)
+Theorem C18_never_told_never_closed : forall cap p evs, forallb asks_no_close evs = true ->
+  s_closed (st_s (run (init_at cap p) evs)) = false.
+Proof. exact never_told_never_closed. Qed.
+Print Assumptions C18_never_told_never_closed.
+
 (* shapes checked by the translator: __exit__ is self.close() for the three classes; the point source is created lazily
    on the reader's own source; header reading touches the caller's stream by the prefetch, then read_evlrs under the flag;
    no function of the modules a stream travels through other than open_las, read_las, the close/__exit__ methods and
@@ -352,7 +401,17 @@ Example C18_nonvacuous :
    map (fun '(r, t) => (r, s_closed (st_s t)))
        (trace (init CapYes) [EOpen MA false true f4 OOk; EReadLas true f4 OOk]),
    (* more than 227 + 1 MiB before the first point record, on a stream that cannot seek, handed over at byte 64 *)
-   map (fun '(r, t) => (r, s_pos (st_s t))) (trace (init_at CapNo 64) [EOpen MR false true f5 OOk; EReadPoints 1]))
+   map (fun '(r, t) => (r, s_pos (st_s t))) (trace (init_at CapNo 64) [EOpen MR false true f5 OOk; EReadPoints 1]),
+   (* a reader with closefd=false reads two points (its point source exists) and is only dropped: the stream is open where it stood,
+      no handle, nothing logged; a second reader on it with closefd, dropped too: open as well; then closed by a third one's exit *)
+   map (fun '(r, t) => (r, s_closed (st_s t), s_pos (st_s t), match st_h t with Some h => Some (h_ps h) | None => None end, length (st_log t)))
+       (trace (init CapYes) [EOpen MR false true f1 OOk; EReadPoints 2; EDrop; ERewind 0; EOpen MR true true f1 OOk; EReadPoints 1; EDrop;
+                             EDrop; ERewind 0; EOpen MR true true f1 OOk; EExit]),
+   (* an appender with closefd=false: points, close(), close() again (nothing), points again (refused), then the same with closefd:
+      the stream is closed by the first close and stays so *)
+   map (fun '(r, t) => (r, s_closed (st_s t), length (st_log t)))
+       (trace (init CapYes) [EOpen MA false true f1 OOk; EWrite; EClose; EReclose MA false PNone; EUseClosed MA;
+                             EOpen MA true true f1 OOk; EExit; EReclose MA true PNone; EUseClosed MA; EReclose MR true (PReal true)]))
   = ([(RDone, false, 375, Some PNone); (RDone, false, 375, Some (PNull true)); (RDone, true, 375, None); (RRaised XOther, true, 375, None)],
      [(RRaised XOther, true, 0)],
      [(RDone, false, 227); (RDone, false, 267); (RDone, false, 307); (RDone, false, 307); (RDone, false, 307); (RDone, false, 0); (RDone, true, 327)],
@@ -368,5 +427,11 @@ Example C18_nonvacuous :
      [(RDone, false, 281, Some PNone); (RRaised XLaspy, false, 281, Some PNone); (RRaised XLaspy, false, 281, Some PNone);
       (RRaised XLaspy, false, 281, Some PNone); (RRaised XLaspy, false, 281, Some PNone); (RDone, true, 281, None)],
      [(RRaised XLaspy, false); (RRaised XLaspy, true)],
-     [(RDone, 64 + 1048804); (RDone, 64 + 1048804 + 20)]).
+     [(RDone, 64 + 1048804); (RDone, 64 + 1048804 + 20)],
+     [(RDone, false, 227, Some PNone, 0%nat); (RDone, false, 267, Some (PReal true), 0%nat); (RDone, false, 267, None, 0%nat);
+      (RDone, false, 0, None, 0%nat); (RDone, false, 227, Some PNone, 0%nat); (RDone, false, 247, Some (PReal true), 0%nat);
+      (RDone, false, 247, None, 0%nat); (RIgnored, false, 247, None, 0%nat); (RDone, false, 0, None, 0%nat);
+      (RDone, false, 227, Some PNone, 0%nat); (RDone, true, 227, None, 1%nat)],
+     [(RDone, false, 0%nat); (RDone, false, 0%nat); (RDone, false, 1%nat); (RDone, false, 1%nat); (RRaised XLaspy, false, 1%nat);
+      (RDone, false, 1%nat); (RDone, true, 2%nat); (RDone, true, 2%nat); (RRaised XLaspy, true, 2%nat); (RDone, true, 2%nat)]).
 Proof. vm_compute. reflexivity. Qed.
